@@ -453,6 +453,9 @@ impl<'a, 'b> GeneratorState<'a> {
             opx
         };
 
+        // Do the flags describe the accumulator at this point? (they don't when it was computed
+        // earlier, like the operand of a switch after the first case has been tested)
+        let acc_flags_ok = flags_ok(&self.flags, left);
         if let ExprType::Immediate(v) = *right {
             if v == 0 {
                 // Let's see if we can shortcut compare instruction
@@ -700,6 +703,10 @@ impl<'a, 'b> GeneratorState<'a> {
             match right {
                 ExprType::Immediate(v) => {
                     if *v != 0 {
+                        self.asm(CMP, right, pos, false)?;
+                        self.flags = FlagsState::Unknown;
+                    } else if matches!(left, ExprType::A(_)) && !acc_flags_ok {
+                        // The accumulator was not loaded here: the flags must be set explicitly
                         self.asm(CMP, right, pos, false)?;
                         self.flags = FlagsState::Unknown;
                     } else {
